@@ -35,6 +35,37 @@ FLOORS = {"signed": 0.2, "float": 0.1, "enum_ge3": 0.03, "nested": 0.03, "array"
           "multi_bus": 0.05, "chained_mux": 0.005, "generated": 0.9}
 
 
+def preflight() -> None:
+    """Oracle self-test: the own DBC reader must agree with cantools on the repository's golden DBC files."""
+    import glob
+
+    import cantools
+
+    from vlib.runner import REPO
+
+    files = sorted(glob.glob(f"{REPO}/plugins/fcp_dbc/tests/schemas/generator/*.dbc"))
+    if not files:
+        raise HarnessError("no golden DBC files found for the reader self-test")
+    for path in files:
+        text = open(path).read()
+        own = dbcreader.parse(text)
+        ref = cantools.database.load_string(text, "dbc")
+        if sorted(m.name for m in own.messages) != sorted(m.name for m in ref.messages):
+            raise HarnessError(f"DBC reader self-test: message sets differ on {path}")
+        for cm in ref.messages:
+            om = own.msg(cm.name)
+            if (om.frame_id, om.length) != (cm.frame_id, cm.length):
+                raise HarnessError(f"DBC reader self-test: id/length differ for {cm.name} in {path}")
+            for cs in cm.signals:
+                osg = om.sig(cs.name)
+                got = (osg.start, osg.length, osg.little, osg.signed, osg.unit or "", osg.is_multiplexer)
+                want = (cs.start, cs.length, cs.byte_order == "little_endian", cs.is_signed, cs.unit or "", cs.is_multiplexer)
+                if got != want:
+                    raise HarnessError(f"DBC reader self-test: {cm.name}.{cs.name}: {got} != cantools {want} in {path}")
+                if (osg.mux_ids or None) != (cs.multiplexer_ids or None) and not cs.is_multiplexer:
+                    raise HarnessError(f"DBC reader self-test: mux ids of {cm.name}.{cs.name} differ in {path}")
+
+
 def gen_dbc(fcp: Any) -> Tuple[Optional[List[Dict[str, Any]]], Optional[str]]:
     import fcp_dbc
 
